@@ -4,6 +4,7 @@ ONEQ = {"T", "HAD"}
 TWOQ = {"CNOT", "CZ"}
 PHS = {}
 STRAT = "clifford"
+TEMPLATE <- NoTemplate
 GAUSS = "simple"
 INIT Init
 NEXT Next
